@@ -20,6 +20,9 @@ def run(tier, seed):
     rk = {'comm': True}
     fk = dict(base='ProcessFaults', spec='FSpec')
     down = core_model.family(['P12', 'P02'], out_missing=['P12', 'P02'])      # FINISHED reached through the StateEntryFailed downgrade
+    # a process closed by hand keeps announcing the transitions it still makes (and is unsubscribed from then on)
+    closed = dict(name='C16_closed', progs=C.fam(['P01', 'P03', 'P04'] if tier == 'quick' else C.ALL), plans=[[]],
+                  alphabet=['close', 'kill', 'fail', 'rpc'], k=2 if tier == 'quick' else 3, overrides=OV)
     if tier == 'quick':
         mc = [dict(name='C16_msgs', progs=C.fam(['P01', 'P03', 'P04', 'P05', 'P07', 'P08', 'P09', 'P12']), plans=[[]], alphabet=msgs, k=3, invariants=INV, overrides=OV),
               dict(name='C16_mixed', progs=C.fam(['P03', 'P04', 'P09']), plans=[[]], alphabet=mixed, k=3, invariants=INV, overrides=OV),
@@ -42,6 +45,8 @@ def run(tier, seed):
                    overrides=OV, run_kw=rk, **fk),
               dict(name='C16_downgrade', progs=down, plans=[[]], alphabet=mixed, k=3, overrides=OV, run_kw=rk)]
         mc.append(dict(name='C16_downgrade', progs=down, plans=[[]], alphabet=mixed, k=3, invariants=INV, overrides=OV))
+    mc.append(dict(closed, invariants=['C16_Unsubscribed', 'C16_Reply']))
+    rp.append(dict(closed, run_kw=rk))
     return core_check.run_check(
         PID, tier, seed, mc, rp,
         level_text='TLC exhaustive over message sequences and broadcast faults + replay on a real process with an in-process communicator',
